@@ -24,6 +24,7 @@ DECIDED = [
     "ATOM on every exceptional path of every method of the model classes: no visible write precedes an escaping raise (rollback stores cancel)",
     "PUBLISH constructors: nothing can raise after the new object was published into a parent",
     "HANDLER-1 every handler that rolls a field back catches all exceptions",
+    "OBL-MERGE also imports FWD-1 of C13: the nested merge runs with the caller's strict flag (premise of the MERGE-REC contract)",
 ]
 NOT_DECIDED = ["exceptions outside the raise vocabulary (MemoryError, AttributeError/TypeError caused by foreign objects, library internals)",
                "whole-graph equality (implied by 'no visible write', not compared)"]
